@@ -913,12 +913,16 @@ theorem addVar_step (d : Dialect) : ∀ (n : Nat) (w : Val β), w.depth < n → 
     | rsub text vars =>
       simp only [Val.depth] at hd
       simp only [addVar, spec] at hok ⊢
-      split
-      · rename_i hc
-        simp only [hc, if_true] at hok
-        exact nexprBuild_step ih _ vars st (by omega) hok
-      · rename_i hc
-        simp only [hc, if_false] at hok
-        exact exprBuild_step ih _ vars false st (fun w hw => by have := depthL_mem hw; omega) hok
+      cases hb : (d == Dialect.dollar && (retemplate d 1 vars.length text).contains '$')
+      · simp only [hb, Bool.false_eq_true, if_false] at hok ⊢
+        split
+        · rename_i hc
+          simp only [hc, if_true] at hok
+          exact nexprBuild_step ih _ vars st (by omega) hok
+        · rename_i hc
+          simp only [hc, if_false] at hok
+          exact exprBuild_step ih _ vars false st (fun w hw => by have := depthL_mem hw; omega) hok
+      · rw [hb] at hok
+        simp at hok
 
 end Gorm.Bind
